@@ -85,7 +85,15 @@ def gen_scenario(R, size="small", max_items=3):
     for _ in range(R.choice([0, 0, 1, 1, 2])):
         ext.append([gen_event(R, items) for _ in range(R.choice([1, 2, 4]))])
     # segmentation of the inbound stream
-    lines = ["1|DPI|S|ARI.version|S|1.9.1\r\n"] + ["%s|%s|S|%s%s" % (r["id"], r["method"], r["item"], R.choice(["\r\n", "\n"])) for r in requests]
+    def tok(name):
+        # the Proxy Adapter may send any standard URL-encoding of the item name (an escaped unreserved character, either hex
+        # case): the name the adapter sees and the name on the outbound lines are the decoded one, encoded the library's way
+        if len(name) < 40 and R.random() < 0.25:
+            k = R.randrange(len(name))
+            h = "%%%02X" % ord(name[k])
+            return name[:k] + (h if R.random() < 0.5 else h.lower()) + name[k + 1:]
+        return name
+    lines = ["1|DPI|S|ARI.version|S|1.9.1\r\n"] + ["%s|%s|S|%s%s" % (r["id"], r["method"], tok(r["item"]), R.choice(["\r\n", "\n"])) for r in requests]
     mode = R.choice(["line", "line", "merge", "split"])
     stream = "".join(lines)
     if mode == "line":
